@@ -1,4 +1,5 @@
 import CharsetProof.Model.SortLarge
+import CharsetProof.Model.Concrete
 namespace Charset
 variable {α : Type}
 
@@ -59,5 +60,12 @@ theorem sortUnstable_perm (lt : α → α → Bool) (l : List α) : (sortUnstabl
   split
   · exact insertionSort_perm lt l
   · exact ipnsort_perm lt l
+
+theorem sortMatches_perm {E L : Type} (l : List (Match E L)) : (sortMatches l).Perm l := by
+  unfold sortMatches
+  have h := sortUnstable_perm (fun (a b : Match.Key × Match E L) => Match.ltKey a.1 b.1)
+    (l.map (fun m => (m.key, m)))
+  have := h.map (·.2)
+  simpa [List.map_map, Function.comp_def] using this
 
 end Charset
